@@ -38,17 +38,43 @@ ASSUMPTIONS = [
 NAN = float("nan")  # ONE object: the very same NaN passed again is the same pattern for functools
 VALUES = [0, 1, 2, 1.0, 2.0, True, False, None, "a", "1", (1,), (1.0,), (1, 2), "LIST", "boom", "NAN",
           # positional values that look like a keyword item: f(("a", 1)) is not f(a=1)
-          ("a", 1), ("b", 1), ("a", 2)]
+          ("a", 1), ("b", 1), ("a", 2),
+          # transparent stand-ins: equal to and hashing like 1 / 1.0, and reporting that value's class via __class__
+          "REF1", "REF1.0"]
+
+
+class _Ref:
+    """a proxy for a value: type(ref) is _Ref, ref.__class__ is the class of the value (like a lazy reference or a
+    spec'd mock); for a typed cache the TYPE counts, as it does for functools"""
+
+    def __init__(self, value):
+        self._value = value
+
+    __class__ = property(lambda self: type(self._value))
+
+    def __eq__(self, other):
+        return self._value == other
+
+    def __hash__(self):
+        return hash(self._value)
+
+    def __repr__(self):
+        return f"<ref to {self._value!r}>"
+
+
+_REFS = {"REF1": _Ref(1), "REF1.0": _Ref(1.0)}
 
 
 def _val(v):
     if isinstance(v, str) and v == "NAN":
         return NAN
+    if isinstance(v, str) and v in _REFS:
+        return _REFS[v]
     return [] if isinstance(v, str) and v == "LIST" else v
 
 
 # indexes into VALUES; the confusable values 1 / 1.0 / True / (1,) / (1.0,) are over-weighted
-ARG = st.one_of(st.sampled_from(range(len(VALUES))), st.sampled_from([1, 3, 5, 10, 11, 1, 16, 17]))
+ARG = st.one_of(st.sampled_from(range(len(VALUES))), st.sampled_from([1, 3, 5, 10, 11, 1, 16, 17, 19, 20]))
 CALL = st.tuples(st.lists(ARG, max_size=2), st.lists(st.tuples(st.sampled_from(["a", "b", "self", "key"]), ARG), max_size=2,
                                                      unique_by=lambda t: t[0]))
 
@@ -78,6 +104,8 @@ def histories(draw, kind, tier):
         st.tuples(st.just("discard"), st.integers(0, 1), pick),
         # (method kind) instance 1 is replaced by a shallow copy of instance 0 - a new object with its own identity
         st.tuples(st.just("copy"), st.just(0)),
+        # ANOTHER function decorated with the very same decorator object is called: its cache is its own
+        st.tuples(st.just("sibling"), st.just(0), pick),
     )
     ops = draw(st.lists(op, min_size=6, max_size=40 if tier == "quick" else 60))
     return {"kind": kind, "maxsize": maxsize, "typed": typed,
@@ -174,7 +202,7 @@ class Model:
         return (self.hits, self.misses, self.maxsize, len(self.cache))
 
 
-def build_targets(case):
+def build_targets(case, extra=None):
     """returns (async callables per instance, sync callables per instance, logs, normalised maxsize)"""
     kind, maxsize, typed = case["kind"], case["maxsize"], case["typed"]
     alog, slog = [], []
@@ -198,6 +226,25 @@ def build_targets(case):
         adeco = a.lru_cache(maxsize=maxsize, typed=typed)
         sdeco = functools.lru_cache(maxsize=maxsize, typed=typed)
         norm = maxsize if maxsize is None else max(maxsize, 0)
+
+    if extra is not None:
+        sib_calls = [0, 0]
+
+        def sib_body(k, args, kwargs):
+            sib_calls[k] += 1
+            if any(x == "boom" and isinstance(x, str) for x in list(args) + list(kwargs.values())):
+                raise ValueError("boom")
+            return ("sibling", sib_calls[k])
+
+        @adeco
+        async def asib(*args, **kwargs):
+            return sib_body(0, args, kwargs)
+
+        @sdeco
+        def ssib(*args, **kwargs):
+            return sib_body(1, args, kwargs)
+
+        extra["sibling"] = (asib, ssib)
 
     if kind == "function":
         @adeco
@@ -281,7 +328,9 @@ def build_targets(case):
 
 def check(case):
     ctx = Ctx("a")
-    afns, sfns, alog, slog, norm, bound = build_targets(case)
+    extra = {}
+    afns, sfns, alog, slog, norm, bound = build_targets(case, extra)
+    asib, ssib = extra["sibling"]
     model = Model(norm, case["typed"])
     mlog = []
     discarded = False
@@ -322,7 +371,7 @@ def check(case):
                     inst_ids[1] = max(inst_ids) + 1
                 continue
             afn, sfn = afns[inst], sfns[inst]
-            if name in ("call", "discard"):
+            if name in ("call", "discard", "sibling"):
                 args = tuple(_val(VALUES[i]) for i in op[2][0])
                 kwargs = {k: _val(VALUES[i]) for k, i in op[2][1]}
                 sig_key = repr((args, sorted(kwargs.items())))
@@ -335,6 +384,18 @@ def check(case):
                     if eq_key in seen_keys and seen_keys[eq_key] != sig_key:
                         stats["equal_not_identical"] = True
                     seen_keys.setdefault(eq_key, sig_key)
+            if name == "sibling":
+                try:
+                    got = ("return", await asib(*args, **kwargs))
+                except Exception as exc:
+                    got = ("raise", type(exc).__name__)
+                try:
+                    want = ("return", ssib(*args, **kwargs))
+                except Exception as exc:
+                    want = ("raise", type(exc).__name__)
+                if got != want and not discarded:
+                    return ("sibling-function-result-differs", f"step {step} {op}: async={got} reference={want}")
+                # (the subject's own statistics, compared below, must not have moved)
             if name == "call":
                 try:
                     got = ("return", await afn(*args, **kwargs))
